@@ -186,6 +186,48 @@ fn main() {
     }
     match args[0].as_str() {
         "replay" => replay(&args[1..]),
+        "widths" => {
+            // size of every handle type and of its Option, for several payload shapes (C11 / C12)
+            use std::mem::size_of;
+            use triomphe::{Arc, ArcBorrow, ArcUnion, HeaderSlice, HeaderWithLength, OffsetArc, ThinArc, UniqueArc};
+            #[repr(align(64))]
+            #[allow(dead_code)]
+            struct Wide([u8; 64]);
+            let mut rows: Vec<serde_json::Value> = vec![];
+            macro_rules! row {
+                ($kind:expr, $shape:expr, $t:ty) => {
+                    rows.push(json!({"kind": $kind, "shape": $shape, "size": size_of::<$t>(), "option": size_of::<Option<$t>>(),
+                                     "stride": size_of::<[$t; 3]>() / 3}));
+                };
+            }
+            macro_rules! sized_rows {
+                ($shape:expr, $p:ty) => {
+                    row!("Arc", $shape, Arc<$p>);
+                    row!("OffsetArc", $shape, OffsetArc<$p>);
+                    row!("ArcBorrow", $shape, ArcBorrow<'static, $p>);
+                    row!("UniqueArc", $shape, UniqueArc<$p>);
+                    row!("ArcUnion", concat!($shape, " | u8"), ArcUnion<$p, u8>);
+                    row!("ArcUnion", concat!("u8 | ", $shape), ArcUnion<u8, $p>);
+                    row!("ArcUnion", concat!($shape, " | ", $shape), ArcUnion<$p, $p>);
+                    row!("ThinArc", concat!("header ", $shape), ThinArc<$p, u32>);
+                    row!("ThinArc", concat!("elements ", $shape), ThinArc<u8, $p>);
+                    row!("ArcSlice", $shape, Arc<[$p]>);
+                    row!("UniqueArcSlice", $shape, UniqueArc<[$p]>);
+                    row!("ArcBorrowSlice", $shape, ArcBorrow<'static, [$p]>);
+                    row!("ArcHeaderSlice", $shape, Arc<HeaderSlice<HeaderWithLength<$p>, [$p]>>);
+                };
+            }
+            sized_rows!("()", ());
+            sized_rows!("u8", u8);
+            sized_rows!("u64", u64);
+            sized_rows!("String", String);
+            sized_rows!("[u8; 3]", [u8; 3]);
+            sized_rows!("align 64", Wide);
+            row!("ArcStr", "str", Arc<str>);
+            row!("ArcDyn", "dyn Debug", Arc<dyn std::fmt::Debug>);
+            row!("ArcDyn", "dyn Probe", Arc<dyn payload::Probe>);
+            std::fs::write(&args[1], serde_json::to_string(&rows).unwrap()).unwrap();
+        }
         "compare" => {
             if args.len() < 5 {
                 usage();
